@@ -252,6 +252,17 @@ def battery(est, order=1, n=0):
         Q.append(("gamut_l1_scaling", lambda a: est.gamut_l1_scaling(a), [Bq + 1.0]))
         Q.append(("gamut_dist_scaling", lambda a: est.gamut_dist_scaling(a), [Bq]))
         Q.append(("fit_adaptive", lambda a: est.fit_adaptive(a), [Bq[:2]]))
+        # non-default options of the same queries: absolute capture, a seeded quasi-Monte-Carlo engine, an explicit variance matrix,
+        # a target set with an all-zero row (the row the chromatic scaling replaces internally)
+        Bz = np.array([[0.75, 0.75], [0.0, 0.0], [0.1, 3.0]])
+        Q.append(("range_of_solutions-absolute", lambda a: est.range_of_solutions(a, error="ignore", relative=False), [Bq]))
+        Q.append(("sample_in_gamut-absolute", lambda: est.sample_in_gamut(n=5, seed=1, relative=False), []))
+        Q.append(("sample_in_gamut-halton", lambda: est.sample_in_gamut(n=16, seed=1, engine="Halton"), []))
+        Q.append(("compute_gamut-absolute", lambda: est.compute_gamut(seed=1, relative=False), []))
+        Q.append(("gamut_l1_scaling-absolute", lambda a: est.gamut_l1_scaling(a, relative=False), [Bq + 1.0]))
+        Q.append(("gamut_dist_scaling-absolute", lambda a: est.gamut_dist_scaling(a, relative=False), [Bq]))
+        Q.append(("gamut_dist_scaling-zero-row", lambda a: est.gamut_dist_scaling(a), [Bz]))
+        Q.append(("minimize_variance-explicit", lambda a, e: est.minimize_variance(a, Epsilon=e), [Bq[:2], 0.25 + 0.125 * ((np.arange(2)[:, None] + np.arange(n)[None, :]) % 3)]))
 
         def fit_registered_on_copy():
             c = copy.deepcopy(est)  # fit() is a mutating operation of the alphabet: observe it on a copy
